@@ -39,6 +39,15 @@ class C16(Machine):
             sc["params"]["kinds"] = prng.choice([["reclaim"], ["pickle"], ["reclaim", "pickle"], ["evict"]])
             sc["net"] = gen_network(sub_rng(run_seed, "net-skip-raw"), {"maa_cascade": 3, "maa": 1, "modular": 1}, nmax=self.NMAX.get(tier, 6), fmts=self.FMTS, shuffle_order=True)
             return sc
+        if prng.random() < 0.1:
+            # cached-net history: percolated Petri nets are caches that later calls read
+            # (expansion, skipping, candidate search).  Fill them through the public method,
+            # also with its parent_id keyword and a parent that did not create the node, drop
+            # them (the fault), then run the consumers.
+            sc["params"]["mode"] = "cached_net"
+            sc["params"]["kinds"] = prng.choice([["reclaim"], ["reclaim"], ["pickle"], ["evict"]])
+            sc["net"] = gen_network(sub_rng(run_seed, "net-cached-net"), {"modular": 3, "cascade": 2, "maa_cascade": 1, "canal": 1}, nmax=self.NMAX.get(tier, 6), fmts=self.FMTS, shuffle_order=True)
+            return sc
         if prng.random() < 0.45:
             # a non-default configuration must survive the round trip as well: later answers
             # (limit errors, candidate lists) depend on it
@@ -83,6 +92,8 @@ class C16(Machine):
         script = None
         if not replay and p.get("mode") == "skip_raw":
             script = self.skip_raw_script(B, sc, rng, frng)
+        if not replay and p.get("mode") == "cached_net":
+            script = self.cached_net_script(B, sc, rng, frng)
         while step < STEP_CAP and not vio:
             if script is not None:
                 if i >= len(script):
@@ -102,6 +113,13 @@ class C16(Machine):
                 else:
                     # chosen on the untouched twin B: the history H does not depend on the faults
                     op = full_op(B, rng, w=(0.45, 0.30, 0.0, 0.0, 0.10, 0.15))
+                    while op.get("op") == "set_knob":
+                        # C16 quantifies over histories of API *calls* under one configuration
+                        # (non-default ones come from the scenario).  Rewriting sd.config between
+                        # caching and reclaiming legitimately makes recomputed heuristic data (e.g.
+                        # the NFVS under another nfvs_size_threshold) differ from what the
+                        # untouched twin still has cached — not a transparency defect.
+                        op = full_op(B, rng, w=(0.45, 0.30, 0.0, 0.0, 0.10, 0.15))
             ops_done.append(op)
             step += 1
             if op.get("fault"):
@@ -167,6 +185,36 @@ class C16(Machine):
         rng.shuffle(ids)
         for i in ids[:12]:
             ops.append({"op": "seeds", "node": w.space_of(i), "compute": True, "fallback": False})
+        return ops[: STEP_CAP - 1]
+
+    def cached_net_script(self, B, sc, rng, frng):
+        w = self.make_world(sc)
+        if w.log[0]["out"]["cls"] != "ok":
+            return []
+        ops = [{"op": "bfs", "node": None, "level": rng.choice([1, 1, 2]), "size": None}]
+        w.apply(ops[0])
+        sd = w.sd
+        stubs = w.stubs()
+        rng.shuffle(stubs)
+        # prefer stubs with several parents
+        stubs.sort(key=lambda n: -len(list(sd.dag.predecessors(n))))
+        chosen = stubs[:3]
+        for c in chosen:
+            preds = sorted(sd.dag.predecessors(c))
+            if not preds:
+                continue
+            par = rng.choice(preds)
+            for op in ({"op": "perc_pn", "node": w.space_of(par)}, {"op": "perc_pn", "node": w.space_of(c), "parent": w.space_of(par)}):
+                w.apply(op)
+                ops.append(op)
+        ops.append(self.fault_op(w, frng, sc["params"]["kinds"]))
+        for c in chosen:
+            sp = w.space_of(c)
+            op = rng.choice([{"op": "skip_to_minimal", "node": sp}, {"op": "expand_one", "node": sp}, {"op": "candidates", "node": sp, "compute": True, "greedy": True, "sim": True}, {"op": "minimal", "node": sp, "size": None, "skip": False}])
+            w.apply(op)
+            ops.append(op)
+        ops.append({"op": "bfs", "node": None, "level": None, "size": None})
+        ops.append({"op": "exp_seeds"})
         return ops[: STEP_CAP - 1]
 
     def compare(self, A, B, op, oa, ob, step, site):
